@@ -62,6 +62,12 @@ MUTANTS += [
     M("c03-bool-as-int", "C03,C04,C19", "bool dumped through the int path when inside tuples", (B, "@register(_dump_registry, bool)\ndef _dump_bool(obj, stream):\n    if obj:", "@register(_dump_registry, bool)\ndef _dump_bool(obj, stream):\n    if len(stream) > 3:\n        stream.append(IMM_INTS[int(obj)])\n    elif obj:")),
     M("c03-slice-dumpable", "C03,C04", "dumpable ignores slice.step", (B, "return dumpable(obj.start) and dumpable(obj.stop) and dumpable(obj.step)", "return dumpable(obj.start) and dumpable(obj.stop)")),
     M("c03-fset-subclass", "C03", "frozenset subclass treated as value", (B, "    if type(obj) in (tuple, frozenset):\n        return all", "    if type(obj) is tuple or isinstance(obj, frozenset):\n        return all")),
+    M("c03-revert-inflight-proxy", "C03", "the cache is not looked at again after the class was fetched: an object arriving twice in flight gets two proxies (revert)",
+      (P, "                cached = self._proxy_cache.get(id_pack)\n", "                cached = None\n")),
+    M("c03-inflight-spare-releases", "C10", "the spare proxy of an object that arrived twice in flight still releases one reference when dropped",
+      (P, "                    proxy.____refcount__ = 0\n", "")),
+    M("c03-inflight-receipt-not-counted", "C10", "the second in-flight receipt is not counted on the proxy that is handed out",
+      (P, "                    proxy.____refcount__ = 0\n                    cached.____refcount__ += 1\n", "                    proxy.____refcount__ = 0\n")),
     M("c03-obtain-no-copy", "C03", "obtain returns the proxy for lists", (CL, "    return pickle.loads(pickle.dumps(proxy))", "    return proxy if len(proxy) == 3 else pickle.loads(pickle.dumps(proxy))")),
 ]
 
